@@ -1,7 +1,7 @@
 (* Properties/C12.v — client routes responses to the right command and mirrors protocol state. *)
 From GoImap.Base Require Import Bytes.
 From GoImap.Model Require Import ClientConn.
-From GoImap.Proofs Require Import ClientConnProofs.
+From GoImap.Proofs Require Import ClientConnProofs ClientRouteProofs.
 Open Scope N_scope.
 
 Theorem C12_exactly_once : forall evs, let c := run evs in
@@ -32,6 +32,36 @@ Theorem C12_mailbox_iff_selected : forall evs, let c := run evs in
   c_closed c = false -> (c_mbox c <> None <-> c_state c = S_SEL).
 Proof. exact mailbox_iff_selected. Qed.
 Print Assumptions C12_mailbox_iff_selected.
+
+Theorem C12_data_to_oldest_pending : forall evs e t n f data,
+  wants e = Some (f, data) -> In (t, n) (route (run evs) e) ->
+  In n data /\
+  exists p, In p (c_pending (run evs)) /\ p_tag p = t /\ f p = true /\
+            (forall q, In q (c_pending (run evs)) -> f q = true -> t <= p_tag q).
+Proof. exact data_to_oldest_pending. Qed.
+Print Assumptions C12_data_to_oldest_pending.
+
+Theorem C12_data_complete : forall evs e f data,
+  wants e = Some (f, data) -> c_closed (run evs) = false ->
+  (exists p, In p (c_pending (run evs)) /\ f p = true) ->
+  map snd (route (run evs) e) = data.
+Proof. exact data_complete. Qed.
+Print Assumptions C12_data_complete.
+
+Theorem C12_collected_frozen : forall evs evs' t,
+  In t (done_tags (run evs)) -> collected (evs ++ evs') t = collected evs t.
+Proof. exact collected_frozen. Qed.
+Print Assumptions C12_collected_frozen.
+
+Theorem C12_collected_only_issued : forall evs t, c_tag (run evs) < t -> collected evs t = [].
+Proof. exact collected_only_issued. Qed.
+Print Assumptions C12_collected_only_issued.
+
+Example C12_data_nonvacuous :
+  let evs := [EvGreeting 1; EvSubmit KPlain; EvSubmit KList; EvSubmit KList; EvTagged 1 0;
+              EvListData 11; EvListData 12; EvTagged 2 0; EvListData 21; EvTagged 3 0; EvListData 99] in
+  collected evs 2 = [11; 12] /\ collected evs 3 = [21] /\ collected evs 1 = [].
+Proof. vm_compute. repeat split. Qed.
 
 (* non-vacuity: two pipelined commands answered out of order, one refused, a SELECT with its
    data block, a unilateral EXPUNGE *)
